@@ -47,9 +47,9 @@ def work(sid):
 with ThreadPoolExecutor(5) as ex:
     while True:
         # wave 2 deliveries are copied into OUT as <id>-w2 once they have settled
-        for d2 in sorted(glob.glob("/tmp/mut2/out/C*")):
+        for d2 in sorted(glob.glob("/tmp/mut2/out/C*")) + sorted(glob.glob("/tmp/mut3/out/C*")):
             mj2 = os.path.join(d2, "meta.json")
-            tgt = os.path.join(OUT, os.path.basename(d2) + "-w2")
+            tgt = os.path.join(OUT, os.path.basename(d2) + ("-w3" if d2.startswith("/tmp/mut3") else "-w2"))
             if os.path.isdir(d2) and os.path.exists(mj2) and os.path.exists(os.path.join(d2, "patch.diff")) \
                     and time.time() - os.path.getmtime(mj2) > 240 and not os.path.exists(tgt):
                 import shutil
